@@ -119,6 +119,11 @@ func (tw *TimerWheel[K, V]) spec_schedule(entry *Entry[K, V]) {
 	requires("wf", sp_wfWheel(tw))
 	requires("entry", entry != nil)
 	set(gh_po_sched(entry), true)
+	// filing an entry in the wheel leaves the policy regions alone: flags, prev/next links, membership, sizes
+	quietunless(false, "Entry.flag.Flags", "Entry.meta.prev", "Entry.meta.next", "gh.po_in", "gh.po_ord")
+	ensures("policy_sizes", all(func(m *List[K, V]) bool {
+		return imp(m.listType != WHEEL_LIST, m.len == old(m.len) && m.count == old(m.count))
+	}))
 	ensures("scheduled", gh_po_sched(entry) && all(func(x *Entry[K, V]) bool { return imp(x != entry, gh_po_sched(x) == old(gh_po_sched(x))) }))
 	ensures("linked", entry.meta.wheelPrev != nil)
 }
